@@ -93,6 +93,10 @@ def run(ctx):
         for e, loops in all_events(p, ("loop",)):
             if e["func"] != "Server.prune_all_apps" or loops:
                 continue
+            # the app loop is the one whose body reaches the per-app sweep
+            if not any(x["k"] == "call" and x["callee"] == "AppNamespace.prune"
+                       for alt in e["alts"] for x, _ in flat_events(alt["events"])):
+                continue
             napps += 1
             it = strip_wrappers(e["iter"])
             okdb = it[0] == "coll"
